@@ -84,6 +84,8 @@ def known_hamacher(label, case, detail):
     Signature: the failing point involves HamacherSum, the two largest operands x, y have 1 - x*y < 2e-3, and (for
     the formula label) the discrepancy is within 64*eps/(1-xy) (any larger error, or any error outside that corner,
     is still a violation)."""
+    if isinstance(case, dict) and label.startswith("broadcast:") and len(case.get("a", [])) == len(case.get("b", [])) == 1:
+        case, label = {"norm": case.get("norm"), "pts": [[case["a"][0], case["b"][0]]]}, "formula"
     if not isinstance(case, dict) or "pts" not in case or len(case["pts"]) != 1:
         return None
     name = case.get("norm")
@@ -254,6 +256,14 @@ def triple_cases(draw):
     return {"norm": name, "pts": pts, "exact": False}
 
 
+@st.composite
+def broadcast_cases(draw):
+    name = draw(st.sampled_from(TNORMS + SNORMS))
+    a = draw(st.lists(unit(), min_size=1, max_size=4))
+    b = draw(st.lists(unit(), min_size=1, max_size=5))
+    return {"norm": name, "a": a, "b": b, "exact": False}
+
+
 def shard_grid(ctx, shard, nshards, m3):
     names = TNORMS + SNORMS
     g2 = [k / 64 for k in range(65)]
@@ -281,6 +291,46 @@ def boundary_values():
         vals.add(min(1.0, max(0.0, math.nextafter(v, 2.0))))
         vals.add(min(1.0, max(0.0, math.nextafter(v, -1.0))))
     return sorted(vals)
+
+
+def check_broadcast(ctx, case) -> None:
+    """case = {"norm", "a": [..], "b": [..], "exact": bool}. The operand shapes the library itself uses: a column of
+    degrees (rows, 1) against a row of memberships (m,) in Activated.membership, and a scalar against an array
+    (rule weight / `any`). Elementwise means: the (rows, m) table of the documented formula, the scalar broadcast."""
+    name, a, b, exact = case["norm"], case["a"], case["b"], bool(case.get("exact"))
+    n = make(name)
+    A, B = np.array(a, dtype=float), np.array(b, dtype=float)
+    slack = 0.0 if exact and name not in QUOTIENT else 1e-12
+    want = np.array([[float(ref(name, F(x), F(y))) for y in b] for x in a], dtype=float)
+
+    def cmp(label, raw, w, sub):
+        ctx.ev()
+        ok = np.shape(raw) == w.shape
+        ctx.check(ok, "broadcast-shape:" + label, sub, {"got": list(np.shape(raw)), "want": list(w.shape)})
+        if not ok:
+            return
+        got = np.asarray(raw, dtype=float)
+        bad = ~(np.abs(got - w) <= slack)
+        if name in FRAGILE and not exact:
+            sums = np.add.outer(np.array(sub["a"], dtype=float), np.array(sub["b"], dtype=float)).reshape(w.shape)
+            bad &= ~(np.abs(sums - 1.0) < 1e-9)
+        for i in (tuple(int(k) for k in ix) for ix in np.argwhere(bad)):
+            # one report per element, as a 1 x 1 case (replayable; lets a listed finding be told from anything else)
+            x = sub["a"][i[0]] if len(i) == 2 else sub["a"][0]
+            ctx.check(False, "broadcast:" + label, {"norm": name, "a": [x], "b": [sub["b"][i[-1]]], "exact": exact,
+                       "full": {"a": list(sub["a"]), "b": list(sub["b"])}},
+                      {"index": list(i), "got": float(got[i]), "ref": float(w[i])})
+
+    Ac, Bc = A.reshape(-1, 1).copy(), B.copy()
+    cmp("column-x-row", n.compute(Ac, Bc), want, case)
+    ctx.check(bool(np.array_equal(Ac.reshape(-1), A) and np.array_equal(Bc, B)), "argument-mutated", case, {})
+    cmp("row-x-column", n.compute(B, A.reshape(-1, 1)), want, case)
+    for i, x in enumerate(a):
+        sub = {"norm": name, "a": [x], "b": b, "exact": exact}
+        cmp("scalar-x-array", n.compute(float(x), B), want[i], sub)
+        cmp("array-x-scalar", n.compute(B, float(x)), want[i], sub)
+    if len(a) > 1 and len(b) > 1:
+        ctx.nt(["broadcast", name, len(a), len(b)], {"norm": name, "a": a[:3], "b": b[:3]})
 
 
 def check_crisp_dtypes(ctx, case) -> None:
@@ -312,11 +362,18 @@ def shard_boundary(ctx, shard, nshards):
         ctx.direct("pairs", check_pairs, [{"norm": name, "pts": pts, "exact": False, "shape": None}])
         ctx.cls("boundary_pairs", len(pts))
         ctx.direct("crisp", check_crisp_dtypes, [{"norm": name}])
+        # b in another order than a (and once of another length): with a == b the table is symmetric and a transposed
+        # or row/column-swapped result would go unnoticed
+        ctx.direct("broadcast", check_broadcast, [{"norm": name, "a": vals, "b": vals[::-1], "exact": False}])
+        g = [k / 16 for k in range(17)]
+        ctx.direct("broadcast", check_broadcast, [{"norm": name, "a": g, "b": g[::-1], "exact": True},
+                                                  {"norm": name, "a": g, "b": g[3:][::-1] + [1.0, 0.0], "exact": True}])
 
 
 def shard_random(ctx, shard, nshards, ex):
     ctx.hyp("pairs", pair_cases(), check_pairs, ex)
     ctx.hyp("triples", triple_cases(), check_triples, ex)
+    ctx.hyp("broadcast", broadcast_cases(), check_broadcast, max(ex // 4, 50))
 
 
 def run(ctx) -> None:
@@ -346,6 +403,9 @@ def run(ctx) -> None:
 
 
 def replay(ctx, prop, case) -> None:
-    fn = {"pairs": check_pairs, "triples": check_triples, "crisp": check_crisp_dtypes}.get(prop)
+    fn = {"pairs": check_pairs, "triples": check_triples, "crisp": check_crisp_dtypes,
+          "broadcast": check_broadcast}.get(prop)
     if fn:
+        if prop == "broadcast" and "full" in case:  # the failing element was reported alone; replay its whole table
+            case = {"norm": case["norm"], "a": case["full"]["a"], "b": case["full"]["b"], "exact": case.get("exact")}
         ctx.direct(prop, fn, [case])
